@@ -393,4 +393,278 @@ example : parseF64 "4.9e-324".toList = some (F64.ofBits 1) := by decide +kernel
 example : parseF64 "9007199254740993.0".toList = some (F64.ofBits 0x4340000000000000) := by decide +kernel
 example : parseF64 "1.e".toList = none := by decide +kernel
 
+
+theorem adist_self (a : Nat) : adist a a = 0 := by unfold adist; simp
+
+theorem adist_eq_zero (a b : Nat) (h : adist a b = 0) : a = b := by
+  unfold adist at h; split at h <;> omega
+
+theorem rep_le_max (k : Nat) (hk : Rep k) : k ≤ (2 ^ 53 - 1) * 2 ^ maxScale := by
+  obtain ⟨c, s, rfl, hc, hs⟩ := hk
+  exact Nat.mul_le_mul (by omega) (Nat.pow_le_pow_right (by decide) hs)
+
+/-- a value that is itself a binary64 value is returned as it is: reading loses nothing that can be kept -/
+theorem nearestK_exact (k q : Nat) (hq : 0 < q) (hk : Rep k) : nearestK (k * q) q = some k := by
+  cases h : nearestK (k * q) q with
+  | none =>
+    exfalso
+    have h1 := nearestK_none (k * q) q hq h
+    have h2 : (2 ^ 54 - 1) * 2 ^ (maxScale - 1) ≤ k := Nat.le_of_mul_le_mul_right h1 hq
+    have h3 := rep_le_max k hk
+    have hM1 : 1 ≤ maxScale := by decide
+    generalize maxScale = M at *
+    have e2 : 2 ^ M = 2 ^ (M - 1) * 2 := by rw [← Nat.pow_succ]; congr 1; omega
+    rw [e2] at h3
+    have hp : 0 < 2 ^ (M - 1) := Nat.two_pow_pos _
+    generalize 2 ^ (M - 1) = B at *
+    have h4 : (2 ^ 53 - 1) * (B * 2) = (2 ^ 54 - 2) * B := by
+      have : (2:Nat) ^ 54 - 2 = (2 ^ 53 - 1) * 2 := by decide
+      rw [this]; ac_rfl
+    rw [h4] at h3
+    have h5 : (2 ^ 54 - 2) * B < (2 ^ 54 - 1) * B := Nat.mul_lt_mul_of_pos_right (by decide) hp
+    omega
+  | some k' =>
+    have h1 := nearestK_nearest (k * q) q k' hq h k hk
+    rw [adist_self] at h1
+    have h2 : k * q = k' * q := adist_eq_zero _ _ (by omega)
+    have : k = k' := Nat.eq_of_mul_eq_mul_right hq h2
+    rw [this]
+
+
+
+theorem div_eq_of_cross (p1 q1 p2 q2 : Nat) (hq1 : 0 < q1) (hq2 : 0 < q2) (h : p1 * q2 = p2 * q1) :
+    p1 / q1 = p2 / q2 := by
+    apply Nat.le_antisymm
+    · rw [Nat.le_div_iff_mul_le hq2]
+      -- (p1/q1) * q2 ≤ p2  ⇐  (p1/q1)*q2*q1 ≤ p2*q1 = p1*q2
+      have h1 : p1 / q1 * q1 ≤ p1 := Nat.div_mul_le_self p1 q1
+      have h2 : p1 / q1 * q1 * q2 ≤ p1 * q2 := Nat.mul_le_mul_right q2 h1
+      rw [h] at h2
+      have h3 : p1 / q1 * q2 * q1 ≤ p2 * q1 := by
+        have : p1 / q1 * q2 * q1 = p1 / q1 * q1 * q2 := by ac_rfl
+        rw [this]; exact h2
+      exact Nat.le_of_mul_le_mul_right h3 hq1
+    · rw [Nat.le_div_iff_mul_le hq1]
+      have h1 : p2 / q2 * q2 ≤ p2 := Nat.div_mul_le_self p2 q2
+      have h2 : p2 / q2 * q2 * q1 ≤ p2 * q1 := Nat.mul_le_mul_right q1 h1
+      rw [← h] at h2
+      have h3 : p2 / q2 * q1 * q2 ≤ p1 * q2 := by
+        have : p2 / q2 * q1 * q2 = p2 / q2 * q2 * q1 := by ac_rfl
+        rw [this]; exact h2
+      exact Nat.le_of_mul_le_mul_right h3 hq2
+
+/-- rounding depends on the value of the fraction only -/
+theorem roundHE_scale (p1 q1 p2 q2 : Nat) (hq1 : 0 < q1) (hq2 : 0 < q2) (h : p1 * q2 = p2 * q1) :
+    roundHE p1 q1 = roundHE p2 q2 := by
+  have hd : p1 / q1 = p2 / q2 := div_eq_of_cross p1 q1 p2 q2 hq1 hq2 h
+  -- remainders are proportional: r1 * q2 = r2 * q1
+  have e1 : q1 * (p1 / q1) + p1 % q1 = p1 := Nat.div_add_mod p1 q1
+  have e2 : q2 * (p2 / q2) + p2 % q2 = p2 := Nat.div_add_mod p2 q2
+  have hr : p1 % q1 * q2 = p2 % q2 * q1 := by
+    have a1 : p1 * q2 = q1 * (p1 / q1) * q2 + p1 % q1 * q2 := by rw [← Nat.add_mul, e1]
+    have a2 : p2 * q1 = q2 * (p2 / q2) * q1 + p2 % q2 * q1 := by rw [← Nat.add_mul, e2]
+    have a3 : q1 * (p1 / q1) * q2 = q2 * (p2 / q2) * q1 := by rw [hd]; ac_rfl
+    omega
+  unfold roundHE
+  simp only
+  rw [hd]
+  -- the three-way comparison of 2r with q is the same on both sides
+  have c1 : 2 * (p1 % q1) < q1 ↔ 2 * (p2 % q2) < q2 := by
+    constructor
+    · intro hlt
+      have : 2 * (p1 % q1) * q2 < q1 * q2 := Nat.mul_lt_mul_of_pos_right hlt hq2
+      have e : 2 * (p1 % q1) * q2 = 2 * (p2 % q2) * q1 := by rw [Nat.mul_assoc, hr, ← Nat.mul_assoc]
+      rw [e, Nat.mul_comm q1 q2] at this
+      exact Nat.lt_of_mul_lt_mul_right this
+    · intro hlt
+      have : 2 * (p2 % q2) * q1 < q2 * q1 := Nat.mul_lt_mul_of_pos_right hlt hq1
+      have e : 2 * (p2 % q2) * q1 = 2 * (p1 % q1) * q2 := by rw [Nat.mul_assoc, ← hr, ← Nat.mul_assoc]
+      rw [e, Nat.mul_comm q2 q1] at this
+      exact Nat.lt_of_mul_lt_mul_right this
+  have c2 : q1 < 2 * (p1 % q1) ↔ q2 < 2 * (p2 % q2) := by
+    constructor
+    · intro hlt
+      have : q1 * q2 < 2 * (p1 % q1) * q2 := Nat.mul_lt_mul_of_pos_right hlt hq2
+      have e : 2 * (p1 % q1) * q2 = 2 * (p2 % q2) * q1 := by rw [Nat.mul_assoc, hr, ← Nat.mul_assoc]
+      rw [e, Nat.mul_comm q1 q2] at this
+      exact Nat.lt_of_mul_lt_mul_right this
+    · intro hlt
+      have : q2 * q1 < 2 * (p2 % q2) * q1 := Nat.mul_lt_mul_of_pos_right hlt hq1
+      have e : 2 * (p2 % q2) * q1 = 2 * (p1 % q1) * q2 := by rw [Nat.mul_assoc, ← hr, ← Nat.mul_assoc]
+      rw [e, Nat.mul_comm q2 q1] at this
+      exact Nat.lt_of_mul_lt_mul_right this
+  by_cases h1 : 2 * (p1 % q1) < q1
+  · rw [if_pos h1, if_pos (c1.mp h1)]
+  · rw [if_neg h1, if_neg (fun h' => h1 (c1.mpr h'))]
+    by_cases h2 : q1 < 2 * (p1 % q1)
+    · rw [if_pos h2, if_pos (c2.mp h2)]
+    · rw [if_neg h2, if_neg (fun h' => h2 (c2.mpr h'))]
+
+/-- the value read depends on the exact value of the text only, not on how the fraction is written -/
+theorem nearestK_scale (p1 q1 p2 q2 : Nat) (hq1 : 0 < q1) (hq2 : 0 < q2) (h : p1 * q2 = p2 * q1) :
+    nearestK p1 q1 = nearestK p2 q2 := by
+  have hs : scaleOf p1 q1 = scaleOf p2 q2 := by
+    unfold scaleOf; rw [div_eq_of_cross p1 q1 p2 q2 hq1 hq2 h]
+  unfold nearestK
+  simp only
+  rw [hs]
+  have hr : roundHE p1 (q1 * 2 ^ scaleOf p2 q2) = roundHE p2 (q2 * 2 ^ scaleOf p2 q2) := by
+    apply roundHE_scale _ _ _ _ (Nat.mul_pos hq1 (Nat.two_pow_pos _)) (Nat.mul_pos hq2 (Nat.two_pow_pos _))
+    calc p1 * (q2 * 2 ^ scaleOf p2 q2) = p1 * q2 * 2 ^ scaleOf p2 q2 := by rw [Nat.mul_assoc]
+      _ = p2 * q1 * 2 ^ scaleOf p2 q2 := by rw [h]
+      _ = p2 * (q1 * 2 ^ scaleOf p2 q2) := by rw [Nat.mul_assoc]
+  rw [hr]
+
+/-- **reading preserves order**: of two decimal values the smaller never reads as the larger binary64 value
+    (they may read as the same one) -/
+theorem nearestK_mono (p1 q1 p2 q2 k1 k2 : Nat) (hq1 : 0 < q1) (hq2 : 0 < q2) (hle : p1 * q2 ≤ p2 * q1)
+    (h1 : nearestK p1 q1 = some k1) (h2 : nearestK p2 q2 = some k2) : k1 ≤ k2 := by
+  by_cases hlt : k1 ≤ k2
+  · exact hlt
+  · exfalso
+    have hk : k2 < k1 := by omega
+    have A := nearestK_nearest p1 q1 k1 hq1 h1 k2 (nearestK_rep _ _ _ h2)
+    have B := nearestK_nearest p2 q2 k2 hq2 h2 k1 (nearestK_rep _ _ _ h1)
+    have a1 : k2 * q1 < k1 * q1 := Nat.mul_lt_mul_of_pos_right hk hq1
+    have a2 : k2 * q2 < k1 * q2 := Nat.mul_lt_mul_of_pos_right hk hq2
+    -- x is at or above the midpoint of k2 and k1, y at or below it
+    have mx : k1 * q1 + k2 * q1 ≤ 2 * p1 := by
+      unfold adist at A; repeat' split at A
+      all_goals omega
+    have my : 2 * p2 ≤ k1 * q2 + k2 * q2 := by
+      unfold adist at B; repeat' split at B
+      all_goals omega
+    -- hence x = y = the midpoint
+    have mx' : (k1 * q1 + k2 * q1) * q2 ≤ 2 * p1 * q2 := Nat.mul_le_mul_right q2 mx
+    have my' : 2 * p2 * q1 ≤ (k1 * q2 + k2 * q2) * q1 := Nat.mul_le_mul_right q1 my
+    have e1 : (k1 * q1 + k2 * q1) * q2 = (k1 * q2 + k2 * q2) * q1 := by
+      rw [Nat.add_mul, Nat.add_mul]
+      have : k1 * q1 * q2 = k1 * q2 * q1 := by ac_rfl
+      have : k2 * q1 * q2 = k2 * q2 * q1 := by ac_rfl
+      omega
+    have e2 : 2 * p1 * q2 = 2 * (p1 * q2) := Nat.mul_assoc _ _ _
+    have e3 : 2 * p2 * q1 = 2 * (p2 * q1) := Nat.mul_assoc _ _ _
+    have heq : p1 * q2 = p2 * q1 := by omega
+    have := nearestK_scale p1 q1 p2 q2 hq1 hq2 heq
+    rw [h1, h2] at this
+    simp only [Option.some.injEq] at this
+    omega
+
+
+
+/-- a text starts with a non-digit or is empty -/
+def stops (r : Str) : Prop := ∀ c r', r = c :: r' → isAsciiDigit c = false
+
+theorem spanP_digits (a r : Str) (ha : ∀ c ∈ a, isAsciiDigit c = true) (hr : stops r) :
+    spanP isAsciiDigit (a ++ r) = (a, r) := by
+  induction a with
+  | nil =>
+    cases r with
+    | nil => rfl
+    | cons c r' =>
+      have := hr c r' rfl
+      simp only [List.nil_append]
+      unfold spanP
+      rw [this]; simp
+  | cons c a ih =>
+    have hc : isAsciiDigit c = true := ha c List.mem_cons_self
+    have := ih (fun c' h' => ha c' (List.mem_cons_of_mem _ h'))
+    simp only [List.cons_append]
+    unfold spanP
+    rw [hc, this]; simp
+
+def signText : Option Bool → Str
+  | none => []
+  | some true => ['-']
+  | some false => ['+']
+
+def expText : Option (Option Bool × Str) → Str
+  | none => []
+  | some (sg, ed) => 'e' :: (signText sg ++ ed)
+
+theorem digit_not_sign (c : Char) (h : isAsciiDigit c = true) : c ≠ '-' ∧ c ≠ '+' ∧ c ≠ '.' ∧ c ≠ 'e' ∧ c ≠ 'E' := by
+  refine ⟨?_, ?_, ?_, ?_, ?_⟩ <;> (intro hc; rw [hc] at h; revert h; decide)
+
+theorem decSign_signText (sg : Option Bool) (r : Str) (hr : ∀ c r', r = c :: r' → c ≠ '-' ∧ c ≠ '+') :
+    decSign (signText sg ++ r) = (sg == some true, r) := by
+  cases sg with
+  | none =>
+    simp only [signText, List.nil_append]
+    cases r with
+    | nil => simp [decSign]
+    | cons c r' =>
+      have := hr c r' rfl
+      unfold decSign
+      split
+      · rename_i heq; simp only [List.cons.injEq] at heq; exact absurd heq.1 this.1
+      · rename_i heq; simp only [List.cons.injEq] at heq; exact absurd heq.1 this.2
+      · simp
+  | some b => cases b <;> simp [signText, decSign]
+
+/-- the exponent a text spells -/
+def expVal : Option (Option Bool × Str) → Int
+  | none => 0
+  | some (s, ed) => if (s == some true) then -(digitsVal ed 0 : Int) else digitsVal ed 0
+
+/-- **the decimal grammar, completely**: an optional sign, digits, a dot, digits (one of the two digit runs may be
+    empty, not both), an optional exponent `e`, optional sign, at least one and at most eight digits — every such
+    text is read, as exactly the number it spells -/
+theorem decParse_complete (sg : Option Bool) (ip fp : Str) (ex : Option (Option Bool × Str))
+    (hi : ∀ c ∈ ip, isAsciiDigit c = true) (hf : ∀ c ∈ fp, isAsciiDigit c = true) (hne : ip ++ fp ≠ [])
+    (hex : ∀ s ed, ex = some (s, ed) → (∀ c ∈ ed, isAsciiDigit c = true) ∧ ed ≠ [] ∧ ed.length ≤ 8) :
+    decParse (signText sg ++ (ip ++ '.' :: (fp ++ expText ex))) =
+      some { neg := (sg == some true), m := digitsVal (ip ++ fp) 0,
+             e := expVal ex - fp.length,
+             nd := (ip ++ fp).length } := by
+  -- the sign
+  have h1 : decSign (signText sg ++ (ip ++ '.' :: (fp ++ expText ex))) = (sg == some true, ip ++ '.' :: (fp ++ expText ex)) := by
+    apply decSign_signText
+    intro c r' hcr
+    cases ip with
+    | nil => simp only [List.nil_append, List.cons.injEq] at hcr; rw [← hcr.1]; decide
+    | cons d ip' =>
+      simp only [List.cons_append, List.cons.injEq] at hcr
+      have := digit_not_sign d (hi d List.mem_cons_self)
+      rw [← hcr.1]; exact ⟨this.1, this.2.1⟩
+  -- the integer digits stop at the dot
+  have h2 : spanP isAsciiDigit (ip ++ '.' :: (fp ++ expText ex)) = (ip, '.' :: (fp ++ expText ex)) := by
+    apply spanP_digits _ _ hi
+    intro c r' hcr; simp only [List.cons.injEq] at hcr; rw [← hcr.1]; decide
+  -- the fraction digits stop at the exponent or at the end
+  have h3 : fracPart ('.' :: (fp ++ expText ex)) = (fp, expText ex) := by
+    show spanP isAsciiDigit (fp ++ expText ex) = (fp, expText ex)
+    apply spanP_digits _ _ hf
+    intro c r' hcr
+    cases ex with
+    | none => simp [expText] at hcr
+    | some p => simp only [expText, List.cons.injEq] at hcr; rw [← hcr.1]; decide
+  -- the exponent
+  have h4 : expPart (expText ex) = some (expVal ex) := by
+    cases ex with
+    | none => simp [expText, expPart, expVal]
+    | some p =>
+      obtain ⟨s, ed⟩ := p
+      obtain ⟨hd, hne', hlen⟩ := hex s ed rfl
+      have g1 : decSign (signText s ++ ed) = (s == some true, ed) := by
+        apply decSign_signText
+        intro c r' hcr
+        have := digit_not_sign c (hd c (by rw [hcr]; exact List.mem_cons_self))
+        exact ⟨this.1, this.2.1⟩
+      have g2 : spanP isAsciiDigit ed = (ed, []) := by
+        have := spanP_digits ed [] hd (by intro c r' h; cases h)
+        simpa using this
+      simp only [expText, expPart, g1, g2]
+      have hne'' : ed.isEmpty = false := by cases ed with
+        | nil => exact absurd rfl hne'
+        | cons _ _ => rfl
+      simp [hne'', Nat.not_lt.mpr hlen, expVal]
+  have hne2 : (ip ++ fp).isEmpty = false := by
+    cases h : ip ++ fp with
+    | nil => exact absurd h hne
+    | cons _ _ => rfl
+  unfold decParse
+  simp only [h1, h2, h3, h4, hne2]
+  simp
+
+
 end Gene.Props.F64Parse
